@@ -154,6 +154,25 @@ def build_scratch(out):
         open(p, 'w').write(txt + '\n' + open(fp).read())
 
 
+def run_group(cmd, cwd, env, timeout):
+    """run a command in its own process group and kill the WHOLE group on timeout (cargo-kani leaves cbmc running otherwise)"""
+    import signal
+    p = subprocess.Popen(cmd, cwd=cwd, stdout=subprocess.PIPE, stderr=subprocess.PIPE, text=True, env=env, start_new_session=True)
+    try:
+        o, e = p.communicate(timeout=timeout)
+        return o + '\n' + e, p.returncode
+    except subprocess.TimeoutExpired:
+        try:
+            os.killpg(p.pid, signal.SIGKILL)
+        except ProcessLookupError:
+            pass
+        try:
+            o, e = p.communicate(timeout=30)
+        except Exception:
+            o, e = '', ''
+        return (o or '') + '\n' + (e or '') + '\nTIMEOUT after %ds' % timeout, 124
+
+
 def run_one(scratch, h):
     cmd = ['cargo', 'kani', '--target-dir', KTARGET, '-Z', 'stubbing', '-Z', 'function-contracts',
            '--harness', h['name'], '--output-format', 'terse']
@@ -162,14 +181,7 @@ def run_one(scratch, h):
     cmd += h['extra']
     env = dict(os.environ, CARGO_NET_OFFLINE='true')
     t0 = time.time()
-    try:
-        p = subprocess.run(cmd, cwd=scratch, capture_output=True, text=True, timeout=h['timeout'], env=env)
-        out = p.stdout + '\n' + p.stderr
-        rc = p.returncode
-    except subprocess.TimeoutExpired as e:
-        out = (e.stdout or b'').decode() if isinstance(e.stdout, bytes) else (e.stdout or '')
-        out += '\nTIMEOUT after %ds' % h['timeout']
-        rc = 124
+    out, rc = run_group(cmd, scratch, env, h['timeout'])
     dt = time.time() - t0
     res = {'name': h['name'], 'time_s': round(dt, 1), 'bound': h['bound'], 'complete': h['bound'] is None, 'rc': rc}
     if 'VERIFICATION:- SUCCESSFUL' in out and rc == 0:
@@ -204,7 +216,7 @@ def playback(h):
         if h['features']:
             cmd += ['--features', h['features']]
         # trace extraction can take far longer than the proof itself: give it 5 minutes, then report without concrete input
-        subprocess.run(cmd, cwd=sc, capture_output=True, text=True, timeout=min(300, h['timeout']), env=env)
+        run_group(cmd, sc, env, min(300, h['timeout']))
         tests = []
         for root, _, fs in os.walk(os.path.join(sc, 'src')):
             for f in fs:
